@@ -21,6 +21,8 @@ RULE = (
     "extra_parameters dictionaries, minimum sizes, declared shifts) and evaluated bottom-up by the extracted model "
     "(C09 constructors, order dictated by the declared shifts); every class's terms for n <= 8 and all parameter "
     "values are compared with the implementation's get_terms and, by the oracle, with brute-force enumeration. "
+    "12% of the cases are searches over word classes WITH STATISTICS (harness/universes/c08_stats.py; statistics kept, "
+    "summed, dropped, merged, and added along an equivalence path), compared for every parameter tuple. "
     "Non-trivial: a specification with >= 4 rules and a non-eventually-constant count; distinct = distinct case."
 )
 TRUSTED = [
@@ -38,8 +40,36 @@ ASSUMPTIONS = [
 ]
 
 
+def _rand_word(rng, alph, lo, hi):
+    return "".join(rng.choice(alph) for _ in range(rng.randint(lo, hi)))
+
+
+def _gen_stats(rng):
+    """a word class WITH STATISTICS (harness/universes/c08_stats.py: letter counts kept, summed over a
+    product, dropped when identically 0, merged when duplicated, and — start class tracking fewer
+    statistics than the classes it is equivalent to — ADDED along an equivalence path), searched with the
+    repository's own searcher.  Seed C01c needed an equivalence path ending in a class that tracks a
+    statistic the start class does not."""
+    alph = "ab" if rng.random() < 0.85 else "abc"
+    pats = sorted({_rand_word(rng, alph, 1, 3) for _ in range(rng.choice([0, 1, 1, 2, 2]))})
+    if rng.random() < 0.3:
+        pats = sorted(set(pats) | {rng.choice(alph)})
+    prefix = _rand_word(rng, alph, 0, 2) if rng.random() < 0.2 else ""
+    if any(q in prefix for q in pats):
+        prefix = ""
+    r = rng.random()
+    stats = [rng.choice(alph) for _ in range(1 if r < 0.45 else 2 if r < 0.8 else 3)]
+    add = 0
+    if rng.random() < 0.3:
+        stats, add = stats[: rng.randint(0, 1)], 1     # AddStat in the pack: statistics appear along a path
+    return {"kind": "stats", "cls": [prefix, pats, alph, stats], "add": add, "ruledb": "base", "pack": "stats"}
+
+
 def gen(rng, tier):
     while True:
+        if rng.random() < 0.12:
+            yield _gen_stats(rng)
+            continue
         c = W.random_cfg(rng)
         c["kind"] = "word"
         yield c
@@ -145,9 +175,31 @@ def describe(spec):
     return descs, classes, extra
 
 
+def _stats_search(case):
+    from comb_spec_searcher.exception import SpecificationNotFound
+    from harness.universes import c08_stats
+
+    p, pats, alph, stats = case["cls"]
+    try:
+        return c08_stats.stat_spec(p, pats, alph, stats, add=bool(case.get("add")))
+    except SpecificationNotFound:
+        return None
+
+
+def _truth(c, n):
+    """true terms of class c at size n by brute force (parameter tuple -> number of objects)"""
+    acc = {}
+    for o in c.objects_of_size(n):
+        k = tuple(c.get_parameters(o)) if getattr(c, "extra_parameters", ()) else ()
+        acc[k] = acc.get(k, 0) + 1
+    return sorted([[int(x) for x in k], v] for k, v in acc.items())
+
+
 def impl(case):
-    res = runs.search(case)
-    spec = res["spec"]
+    if case["kind"] == "stats":
+        spec = _stats_search(case)
+    else:
+        spec = runs.search(case)["spec"]
     out = {"found": spec is not None}
     if spec is None:
         out["out"] = [[], []]
@@ -168,13 +220,15 @@ def impl(case):
             errors.append("%s: %s" % (type(e).__name__, str(e)[:100]))
             status.append([2, 1])
         levels.append(lv)
-        truth.append([[[[], sum(1 for _ in c.objects_of_size(n))]] if any(True for _ in c.objects_of_size(n)) else []
-                      for n in range(NMAX + 1)])
+        truth.append([_truth(c, n) for n in range(NMAX + 1)])
     out["out"] = [levels, status]
     out["truth"] = truth
     out["errors"] = errors
-    out["root_counts"] = [spec.count_objects_of_size(n) for n in range(NMAX + 1)]
-    out["root_truth"] = W.true_counts(spec.root, NMAX)
+    # with statistics count_objects_of_size wants a value for every parameter: the total is the sum of the terms
+    root_rule = spec.get_rule(spec.root)
+    out["root_counts"] = [sum(root_rule.get_terms(n).values()) for n in range(NMAX + 1)] if getattr(
+        spec.root, "extra_parameters", ()) else [spec.count_objects_of_size(n) for n in range(NMAX + 1)]
+    out["root_truth"] = [sum(1 for _ in spec.root.objects_of_size(n)) for n in range(NMAX + 1)]
     out["nrules"] = len(classes)
     return out
 
@@ -219,6 +273,8 @@ def key(case):
 
 def classify(case, res):
     tags = ["db=" + case["ruledb"], "pack=" + case["pack"], "found" if res.get("found") else "no_spec"]
+    if case["kind"] == "stats":
+        tags.append("statistics: %d tracked by the start class%s" % (len(case["cls"][3]), ", added along a path" if case.get("add") else ""))
     forms = {d[0] for d in res.get("descs", [])}
     for f, name in ((2, "complement"), (3, "quotient"), (4, "equiv"), (5, "equiv_of_reverse"), (6, "path")):
         if f in forms:
@@ -249,6 +305,6 @@ LEVEL_TEXT = (
 LEVEL_NOTE = (
     "The link between the bottom-up executable evaluator and the recursive `eval` of Spec/Eval.v is the uniqueness "
     "theorem, not a separate refinement proof. Genuineness of user strategies is the documented contract (checked by "
-    "brute force on the shipped universes). Classes with extra statistics are exercised by C09's correspondence; the "
-    "searches here use the parameter-free word classes. Trusted: Coq kernel, extraction, harness."
+    "brute force on the shipped universes). Classes with extra statistics: 12% of the searches (c08_stats universes), the rest use the "
+    "parameter-free word classes; C09's correspondence covers statistics at the rule level. Trusted: Coq kernel, extraction, harness."
 )
